@@ -26,5 +26,7 @@ fn main() {
         cfg!(&mut run, d64, 3, BigRef);
         cfg!(&mut run, d64, 5, BigRef);
     }
+    // the widest configurations of the quantifier (8192 bits), small plan
+    vcore::huge_configs!(cfg, &mut run);
     std::process::exit(run.finish());
 }
